@@ -542,3 +542,183 @@ Proof.
     unfold m_create, m_mkdir, m_mkdirall, m_mkdir, m_open, m_openfile, m_remove, m_removeall, m_rename,
       m_stat, m_chmod, m_chown, m_chtimes; now rewrite !normalize_idempotent.
 Qed.
+
+(* ------------------------------------------------------------------------------------ *)
+(** * C. confinement of BasePathFs.RealPath (C08) *)
+
+Definition seg_prefix (a b : list str) : Prop := exists r, b = a ++ r.
+
+Lemma seg_prefix_nil b : seg_prefix [] b.
+Proof. now exists b. Qed.
+Lemma seg_prefix_refl a : seg_prefix a a.
+Proof. exists []. now rewrite app_nil_r. Qed.
+Lemma seg_prefix_trans a b c : seg_prefix a b -> seg_prefix b c -> seg_prefix a c.
+Proof. intros [r ->] [r' ->]. exists (r ++ r'). now rewrite app_assoc. Qed.
+
+Lemma trim_suffix_slash_snoc x c :
+  trim_suffix_slash (x ++ [c]) = if N.eqb c SLASH then x else x ++ [c].
+Proof.
+  unfold trim_suffix_slash. rewrite rev_app_distr. cbn [rev app]. now rewrite rev_involutive.
+Qed.
+
+Lemma join_slash_last l : l <> [] -> Forall seg_ok l ->
+  exists y c, join_slash l = y ++ [c] /\ c <> SLASH.
+Proof.
+  intros Hn Hf. induction l as [|x l IH]; [congruence|].
+  inversion Hf as [|? ? [Hx [_ Hsf]] Hl]; subst. destruct l as [|x' l].
+  - destruct (exists_last Hx) as [y [c ->]]. exists y, c. split; [reflexivity|].
+    intros ->. apply Hsf. apply in_or_app. right. now left.
+  - destruct IH as [y [c [E Hc]]]; [discriminate | exact Hl|].
+    rewrite join_slash_cons by discriminate. rewrite E.
+    exists (x ++ SLASH :: y), c. split; [now rewrite <- app_assoc | exact Hc].
+Qed.
+
+Lemma trim_render rooted l : nf rooted l -> l <> [] ->
+  trim_suffix_slash (render rooted l) = render rooted l.
+Proof.
+  intros [Hf _] Hn. destruct (join_slash_last l Hn Hf) as [y [c [E Hc]]].
+  assert (Hr : render rooted l = (if rooted then SLASH :: y else y) ++ [c]).
+  { unfold render. destruct rooted; [now rewrite E|]. destruct l; [congruence | exact E]. }
+  rewrite Hr, trim_suffix_slash_snoc. apply N.eqb_neq in Hc. now rewrite Hc.
+Qed.
+
+Lemma trim_suffix_slash_clean b : clean b = b -> b <> s_slash -> trim_suffix_slash b = b.
+Proof.
+  intros Hc Hb. pose proof (clean_segs_nf b) as Hnf. unfold clean in Hc.
+  destruct (clean_segs b) as [|x l] eqn:E.
+  - destruct (is_rooted b); cbn in Hc; rewrite <- Hc; [now contradiction Hb | reflexivity].
+  - rewrite <- Hc at 1. rewrite trim_render; [exact Hc | exact Hnf | discriminate].
+Qed.
+
+Lemma render_app rooted l r : nf rooted l -> l <> [] -> r <> [] ->
+  render rooted (l ++ r) = render rooted l ++ SLASH :: join_slash r.
+Proof.
+  intros _ Hl Hr. unfold render. destruct rooted.
+  - now rewrite join_slash_app.
+  - destruct l as [|x l]; [congruence|]. cbn [app]. 
+    change (x :: l ++ r) with ((x :: l) ++ r). now rewrite join_slash_app.
+Qed.
+
+Lemma split_render_app rooted l t : l <> [] -> Forall slash_free l ->
+  split_slash (render rooted l ++ SLASH :: t) = (if rooted then [] :: l else l) ++ split_slash t.
+Proof.
+  intros Hn Hf. unfold render. destruct rooted.
+  - cbn [app]. rewrite split_slash_cons_slash. cbn [app]. f_equal. now apply split_join_app.
+  - destruct l as [|x l]; [congruence|]. now apply split_join_app.
+Qed.
+
+Lemma is_rooted_app b t : b <> [] -> is_rooted (b ++ t) = is_rooted b.
+Proof. destruct b; [congruence | reflexivity]. Qed.
+
+Lemma clean_fixed_render p : clean p = p -> p = render (is_rooted p) (clean_segs p).
+Proof. intros H. symmetry. exact H. Qed.
+
+(* the key lemma: for cleaned paths, "equal, or string prefix with a trailing separator"
+   implies segment prefix (and the same rootedness) *)
+Lemma string_prefix_seg_prefix b p : clean b = b -> clean p = p ->
+  (p = b \/ prefixb (trim_suffix_slash b ++ s_slash) p = true) ->
+  seg_prefix (clean_segs b) (clean_segs p) /\ is_rooted p = is_rooted b.
+Proof.
+  intros Hb Hp [->|Hpre]; [split; [apply seg_prefix_refl | reflexivity]|].
+  pose proof (clean_segs_nf b) as Hnfb. pose proof (clean_segs_nf p) as Hnfp.
+  pose proof (clean_fixed_render b Hb) as Eb. pose proof (clean_fixed_render p Hp) as Ep.
+  destruct (clean_segs b) as [|x lb'] eqn:Elb.
+  - split; [apply seg_prefix_nil|].
+    destruct (is_rooted b) eqn:Erb; cbn [render] in Eb; rewrite Eb in Hpre.
+    + change (trim_suffix_slash [SLASH] ++ s_slash) with [SLASH] in Hpre.
+      apply prefixb_spec in Hpre as [r ->]. reflexivity.
+    + change (trim_suffix_slash s_dot ++ s_slash) with [DOT; SLASH] in Hpre.
+      apply prefixb_spec in Hpre as [r ->]. reflexivity.
+  - set (lb := x :: lb') in *. assert (Hlb : lb <> []) by discriminate.
+    assert (Hbn : b <> []) by (rewrite Eb; now apply render_nonnil).
+    rewrite Eb in Hpre. rewrite trim_render in Hpre by assumption. rewrite <- Eb in Hpre.
+    apply prefixb_spec in Hpre as [r Hr]. rewrite <- app_assoc in Hr. cbn [s_slash app] in Hr.
+    assert (Hroot : is_rooted p = is_rooted b) by (rewrite Hr; now apply is_rooted_app).
+    split; [|exact Hroot].
+    rewrite Hroot in Ep, Hnfp.
+    assert (Hlp : clean_segs p <> []).
+    { intros E. rewrite E in Ep. assert (Hlen : length p = 1) by (rewrite Ep; now destruct (is_rooted b)).
+      rewrite Hr, app_length in Hlen. destruct b; [congruence|]. cbn in Hlen. lia. }
+    assert (Hsplit : split_slash p = (if is_rooted b then [] :: lb else lb) ++ split_slash r).
+    { rewrite Hr. rewrite Eb at 1. apply split_render_app; [exact Hlb | now apply nf_slash_free in Hnfb]. }
+    rewrite Ep in Hsplit at 1.
+    rewrite split_render in Hsplit; [|exact Hlp | now apply nf_slash_free in Hnfp].
+    exists (split_slash r). destruct (is_rooted b); [now inversion Hsplit | exact Hsplit].
+Qed.
+
+(* and back: segment prefix implies the test RealPath performs *)
+Lemma seg_prefix_string_prefix rooted lb lp : nf rooted lb -> nf rooted lp ->
+  (rooted = false -> lb <> []) -> seg_prefix lb lp ->
+  beqb (render rooted lp) (render rooted lb)
+  || prefixb (trim_suffix_slash (render rooted lb) ++ s_slash) (render rooted lp) = true.
+Proof.
+  intros Hnb Hnp Hrel [r ->]. destruct r as [|y r].
+  - rewrite app_nil_r, beqb_refl. reflexivity.
+  - apply orb_true_iff. right. destruct lb as [|x lb].
+    + destruct rooted; [reflexivity | now contradiction Hrel].
+    + rewrite trim_render by (assumption || discriminate).
+      rewrite render_app by (assumption || discriminate).
+      apply prefixb_spec. exists (join_slash (y :: r)). now rewrite <- app_assoc.
+Qed.
+
+Lemma path_join_clean l : path_join l <> [] -> clean (path_join l) = path_join l.
+Proof.
+  unfold path_join. destruct (filter (fun e => negb (is_empty e)) l); [congruence|].
+  intros _. apply clean_idempotent.
+Qed.
+
+Lemma join2_nonempty_l a b : a <> [] ->
+  join2 a b = clean (if is_empty b then a else a ++ SLASH :: b).
+Proof. destruct a; [congruence|]. intros _. destruct b; reflexivity. Qed.
+
+Lemma join2_clean a b : a <> [] -> clean (join2 a b) = join2 a b.
+Proof. intros H. rewrite join2_nonempty_l by exact H. apply clean_idempotent. Qed.
+
+Lemma real_path_unfold base name :
+  real_path base name =
+  let p := join2 (clean base) name in
+  if beqb p (clean base) || prefixb (trim_suffix_slash (clean base) ++ s_slash) p then Some p else None.
+Proof.
+  unfold real_path. fold (join2 (clean base) name).
+  rewrite join2_clean by apply clean_nonnil. reflexivity.
+Qed.
+
+(* C2 (weak form): RealPath returns the (already clean) join *)
+Theorem real_path_value base name p :
+  real_path base name = Some p -> p = join2 (clean base) name /\ p = clean (join2 (clean base) name).
+Proof.
+  rewrite real_path_unfold. cbv zeta. destruct (_ || _); [|discriminate].
+  intros H; inversion H; subst. split; [reflexivity|]. symmetry. apply join2_clean, clean_nonnil.
+Qed.
+
+(* C1, for every base (rooted or not) *)
+Theorem real_path_confined_gen base name p :
+  real_path base name = Some p ->
+  seg_prefix (clean_segs base) (clean_segs p) /\ clean p = p /\ is_rooted p = is_rooted base.
+Proof.
+  intros H. destruct (real_path_value _ _ _ H) as [E Ec].
+  assert (Hp : clean p = p) by (rewrite Ec at 2; rewrite <- E; reflexivity).
+  rewrite real_path_unfold in H. cbv zeta in H. rewrite <- E in H.
+  destruct (beqb p (clean base) || prefixb (trim_suffix_slash (clean base) ++ s_slash) p) eqn:C;
+    [|discriminate].
+  apply orb_true_iff in C. rewrite beqb_true_iff in C.
+  destruct (string_prefix_seg_prefix (clean base) p (clean_idempotent base) Hp C) as [Hs Hr].
+  rewrite clean_segs_clean in Hs. rewrite is_rooted_clean in Hr. auto.
+Qed.
+
+(* C1 as asked *)
+Theorem real_path_confined base name p :
+  is_rooted (clean base) = true -> real_path base name = Some p ->
+  seg_prefix (clean_segs base) (clean_segs p) /\ clean p = p /\ is_rooted p = true.
+Proof.
+  intros Hr H. destruct (real_path_confined_gen _ _ _ H) as [H1 [H2 H3]].
+  rewrite is_rooted_clean in Hr. rewrite Hr in H3. auto.
+Qed.
+
+(* ... and a rooted result has no ".." segment at all *)
+Corollary real_path_no_dotdot base name p seg :
+  is_rooted (clean base) = true -> real_path base name = Some p -> In seg (clean_segs p) -> seg <> s_dotdot.
+Proof.
+  intros Hr H. destruct (real_path_confined _ _ _ Hr H) as [_ [_ H3]].
+  now apply clean_segs_rooted_no_dotdot.
+Qed.
